@@ -143,38 +143,64 @@ func StopGates(p *core.Program, r *core.Report, rule string) {
 		})
 		w := facts.NewWalker(info)
 		okTrue, nTrue, okFalse := true, 0, false
+		// the condition under which an error stops the analysis: equivalent to fatal || (stopOnError && severe)
+		judge := func(f facts.Formula) {
+			var fatal, severe, stop string
+			for _, a := range facts.Atoms(f) {
+				switch {
+				case strings.HasSuffix(a, ".IsFatal()"):
+					fatal = a
+				case strings.HasSuffix(a, ".IsSevere()"):
+					severe = a
+				case strings.HasSuffix(a, ".stopOnError"):
+					stop = a
+				}
+			}
+			if fatal == "" || severe == "" || stop == "" {
+				okTrue = false
+				return
+			}
+			goal := facts.Or{L: facts.Atom(fatal), R: facts.And{L: facts.Atom(stop), R: facts.Atom(severe)}}
+			if !facts.Entails(f, goal) {
+				okTrue = false
+			}
+			// and not stronger: each disjunct alone must be consistent with the condition
+			if !facts.Satisfiable(facts.MkAnd(f, facts.MkAnd(facts.Atom(fatal), facts.Not{X: facts.Atom(severe)}))) || !facts.Satisfiable(facts.MkAnd(f, facts.MkAnd(facts.Not{X: facts.Atom(fatal)}, facts.Atom(severe)))) {
+				okTrue = false
+			}
+		}
 		w.OnStmt = func(s ast.Stmt, f facts.Formula) {
 			ret, ok := s.(*ast.ReturnStmt)
 			if !ok || len(ret.Results) != 1 {
 				return
 			}
+			// the library form of the same existential: slices.ContainsFunc(errors, func(e) bool { ... })
+			if c, isC := ast.Unparen(ret.Results[0]).(*ast.CallExpr); isC && len(c.Args) == 2 {
+				if fn := core.Callee(info, c); fn != nil && fn.Pkg() != nil && fn.Pkg().Path() == "slices" && fn.Name() == "ContainsFunc" {
+					if fl := core.FieldOf(info, c.Args[0]); fl != nil && fl.Name() == "errors" {
+						if lit, isLit := ast.Unparen(c.Args[1]).(*ast.FuncLit); isLit {
+							overAll = true
+							lw := facts.NewWalker(info)
+							var pos facts.Formula = facts.False{}
+							lw.OnExit = func(st int, lret *ast.ReturnStmt, lf facts.Formula) {
+								if lw.FuncLitDepth > 0 || lret == nil || len(lret.Results) != 1 {
+									return
+								}
+								pos = facts.MkOr(pos, facts.MkAnd(lf, lw.Cond(lret.Results[0])))
+							}
+							lw.WalkBody(lit.Body, nil)
+							nTrue++
+							okFalse = true
+							judge(pos)
+							return
+						}
+					}
+				}
+			}
 			v, _ := core.ConstString(info, ret.Results[0])
 			if v == "true" {
 				nTrue++
-				var fatal, severe, stop string
-				for _, a := range facts.Atoms(f) {
-					switch {
-					case strings.HasSuffix(a, ".IsFatal()"):
-						fatal = a
-					case strings.HasSuffix(a, ".IsSevere()"):
-						severe = a
-					case strings.HasSuffix(a, ".stopOnError"):
-						stop = a
-					}
-				}
-				if fatal == "" || severe == "" || stop == "" {
-					okTrue = false
-					return
-				}
-				goal := facts.Or{L: facts.Atom(fatal), R: facts.And{L: facts.Atom(stop), R: facts.Atom(severe)}}
-				// exactly: the path condition is equivalent to fatal || (stopOnError && severe) (inside the loop)
-				if !facts.Entails(f, goal) {
-					okTrue = false
-				}
-				// and not stronger: each disjunct alone must be consistent with the path condition
-				if !facts.Satisfiable(facts.MkAnd(f, facts.MkAnd(facts.Atom(fatal), facts.Not{X: facts.Atom(severe)}))) || !facts.Satisfiable(facts.MkAnd(f, facts.MkAnd(facts.Not{X: facts.Atom(fatal)}, facts.Atom(severe)))) {
-					okTrue = false
-				}
+				judge(f)
 			}
 			if v == "false" && len(w.Loops) == 0 {
 				okFalse = true
